@@ -6,8 +6,6 @@ Import ListNotations.
 Local Open Scope Z_scope.
 
 (* ------------------------------------------------------------------ newCheckPoints *)
-Definition ts_desc (a b : snap) : Prop := s_ts b <= s_ts a.
-
 Lemma insert_desc_perm : forall x l, Permutation (insert_desc x l) (x :: l).
 Proof.
   intros x l. induction l as [|y l IH]; cbn [insert_desc]; [apply Permutation_refl|].
@@ -111,8 +109,6 @@ Qed.
 (* ------------------------------------------------------------------ monotonicity of the sampling *)
 (* (1) the series is sampled from the oldest snapshot towards the newest, never going back:
        it is [map (nth_snap snaps) idxs] for strictly decreasing positions *)
-Definition decreasing (l : list nat) : Prop := StronglySorted (fun a b => (b < a)%nat) l.
-
 Lemma decreasing_snoc : forall l a b, decreasing (l ++ [a]) -> (b < a)%nat -> decreasing ((l ++ [a]) ++ [b]).
 Proof.
   intros l a b H Hb. unfold decreasing in *. remember (l ++ [a]) as m eqn:Em.
@@ -285,9 +281,6 @@ Qed.
 (* "two sampled points are at least one sampling interval apart" is FALSE even for sorted,
    distinct input: when the interval is overshot the code takes the older neighbour, which lies
    inside the interval.  interval 10, stamps 20, 8, 0 (newest first): sampled 0 and 8. *)
-Definition spaced (interval : Z) (p : pmap) : Prop :=
-  forall a b, In a p -> In b p -> a <> b -> interval <= Z.abs (s_ts a - s_ts b).
-
 Lemma sampling_spacing_refuted : exists maxp interval snaps,
   0 < interval /\ ts_sorted snaps /\ NoDup (map s_epoch snaps) /\
   ~ spaced interval (time_series maxp interval snaps).
@@ -324,7 +317,7 @@ Proof. split; [vm_compute; reflexivity|discriminate]. Qed.
 
 Example ex_protected_mono :
   get_protected 3 600 ex_live = Some [mkSnap 10 4800; mkSnap 35 5280; mkSnap 100 6000] /\
-  get_protected 4 600 ex_live = Some [mkSnap 10 4800; mkSnap 35 5280; mkSnap 100 6000; mkSnap 99 5950].
+  get_protected 4 600 ex_live = Some [mkSnap 10 4800; mkSnap 35 5280; mkSnap 50 5550; mkSnap 100 6000].
 Proof. split; vm_compute; reflexivity. Qed.
 
 Example ex_partition :
@@ -333,13 +326,14 @@ Example ex_partition :
 Proof. vm_compute. reflexivity. Qed.
 
 (* a purge with sampling on: now = 6100, N = 3, interval 600, factor 0.5, no checkpoints yet:
-   cutoff 4900 drops 10 from the live list; 99 and 88 are eligible, 88 is removed *)
+   cutoff 4900 drops 10 from the live list; protected = 35, 50 (sampled) and 100 (latest); the
+   eligible 99, 88 and the never-persisted 7 are removed; 10 is not eligible and stays *)
 Definition ex_state : rstate := mkR ex_live [99; 88; 7] [].
 Example ex_purge :
   remove_old 3 600 4602678819172646912 6100 ex_state =
-  Some (mkR [mkSnap 100 6000; mkSnap 99 5950; mkSnap 50 5550; mkSnap 35 5280; mkSnap 10 4800]
-            [99]
-            [mkSnap 100 6000; mkSnap 99 5950; mkSnap 35 5280], 2)
+  Some (mkR [mkSnap 100 6000; mkSnap 50 5550; mkSnap 35 5280; mkSnap 10 4800]
+            []
+            [mkSnap 100 6000; mkSnap 50 5550; mkSnap 35 5280], 3)
   /\ NoDup (map s_epoch (r_bolt ex_state)).
 Proof. split; [vm_compute; reflexivity|exact ex_live_distinct]. Qed.
 
@@ -350,3 +344,25 @@ Proof. vm_compute. reflexivity. Qed.
 Example ex_checkpoints_tie :
   new_checkpoints [mkSnap 5 30; mkSnap 9 40; mkSnap 7 30] = [mkSnap 9 40; mkSnap 5 30; mkSnap 7 30].
 Proof. vm_compute. reflexivity. Qed.
+
+(* another admissible result of newCheckPoints for the same map: equal stamps swapped *)
+Example ex_checkpoints_other_order :
+  Permutation [mkSnap 9 40; mkSnap 7 30; mkSnap 5 30] [mkSnap 5 30; mkSnap 9 40; mkSnap 7 30] /\
+  StronglySorted ts_desc [mkSnap 9 40; mkSnap 7 30; mkSnap 5 30] /\
+  [mkSnap 9 40; mkSnap 7 30; mkSnap 5 30] <> new_checkpoints [mkSnap 5 30; mkSnap 9 40; mkSnap 7 30].
+Proof.
+  split; [|split].
+  - eapply perm_trans; [|apply perm_swap]. apply perm_skip. apply perm_swap.
+  - repeat constructor; unfold ts_desc; cbn; lia.
+  - vm_compute. discriminate.
+Qed.
+
+(* in [ex_purge] the snapshot of epoch 88 leaves the bolt, and it was eligible *)
+Example ex_purge_removed :
+  In (mkSnap 88 5900) (r_bolt ex_state) /\
+  ~ In (mkSnap 88 5900) [mkSnap 100 6000; mkSnap 50 5550; mkSnap 35 5280; mkSnap 10 4800] /\
+  In 88 (r_eligible ex_state).
+Proof.
+  split; [cbn; tauto|]. split; [|cbn; tauto].
+  cbn. intros H. repeat (destruct H as [H|H]; [discriminate H|]). exact H.
+Qed.
